@@ -27,6 +27,11 @@ def wrap(b, kind, body, d, ct="I"):
         return [b.let(c, lit("I", 3)),
                 b.select(c, [([eqt(lit("I", 1))], [b.print(lit("$", "no"))]),
                              ([rtest(lit("I", 2), lit("I", 4))], body)], [b.print(lit("$", "no2"))])]
+    if kind == "selectlast":
+        # the body is the LAST block of a SELECT CASE that has no CASE ELSE
+        return [b.let(c, lit("I", 3)),
+                b.select(c, [([eqt(lit("I", 1))], [b.print(lit("$", "no"))]),
+                             ([rtest(lit("I", 2), lit("I", 4))], body)], None)]
     if kind == "selectelse":
         return [b.let(c, lit("I", 9)),
                 b.select(c, [([eqt(lit("I", 1)), ist("<", lit("I", 0))], [b.print(lit("$", "no"))])], body)]
